@@ -162,6 +162,64 @@ theorem lydPath_good {f : Forest} {a : Addr} {pt : PathType} {st : Option Nat} {
       · cases h
     · cases h; exact printLevels_good _ _ _ (Buf.init_good _ _)
 
+/-! ### once written, always written -/
+
+theorem Buf.sprintf_log (b : Buf) (s : Bytes) : (b.sprintf s).log ≠ [] := by simp [Buf.sprintf]
+
+theorem printKeyPreds_log (ks : List DNode) : ∀ (b : Buf), b.log ≠ [] → (printKeyPreds b ks).1.log ≠ [] := by
+  induction ks with
+  | nil => intro b hb; simpa [printKeyPreds] using hb
+  | cons k r ih =>
+    intro b hb
+    simp only [printKeyPreds]
+    split
+    · exact hb
+    · exact ih _ (Buf.sprintf_log _ _)
+
+theorem printPred_log (b : Buf) (l : Level) (hb : b.log ≠ []) : (printPred b l).1.log ≠ [] := by
+  unfold printPred
+  split
+  · exact printKeyPreds_log _ _ hb
+  · simp only [printPosPred]; split; exact hb; exact Buf.sprintf_log _ _
+  · simp only [printValuePred]; split; exact hb; exact Buf.sprintf_log _ _
+  · simp only [printPosPred]; split; exact hb; exact Buf.sprintf_log _ _
+  · exact hb
+
+theorem printStep_log (b : Buf) (l : Level) (wp : Bool) (hb : b.log ≠ []) : (printStep b l wp).1.log ≠ [] := by
+  simp only [printStep]
+  split
+  · exact hb
+  · split
+    · exact printPred_log _ _ (Buf.sprintf_log _ _)
+    · exact Buf.sprintf_log _ _
+
+theorem printLevels_log (std : Bool) (ls : List Level) : ∀ (b : Buf), b.log ≠ [] → (printLevels std b ls).1.log ≠ [] := by
+  induction ls with
+  | nil => intro b hb; simpa [printLevels] using hb
+  | cons l rest ih =>
+    intro b hb
+    simp only [printLevels]
+    have h1 := printStep_log b l (std || !rest.isEmpty) hb
+    split
+    · next b1 heq => rw [heq] at h1; exact ih _ h1
+    · next b1 heq => rw [heq] at h1; exact h1
+
+/-- a buffer with room for the first segment does get written -/
+theorem printStep_wrote (b : Buf) (l : Level) (wp : Bool)
+    (h : b.data.length + stepLen (stepMod l).isSome ((stepMod l).getD []).length l.node.name.length + 1 ≤ b.cap) :
+    (printStep b l wp).1.log ≠ [] := by
+  have he : b.enlarge (b.data.length + stepLen (stepMod l).isSome ((stepMod l).getD []).length l.node.name.length) = some b := by
+    unfold Buf.enlarge
+    have : enlargeExtra = 1 := rfl
+    simp only [this]
+    split
+    · omega
+    · rfl
+  simp only [printStep, he]
+  split
+  · exact printPred_log _ _ (Buf.sprintf_log _ _)
+  · exact Buf.sprintf_log _ _
+
 /-! ### a growing buffer receives the whole text -/
 
 theorem printKeyPreds_dynamic (ks : List DNode) : ∀ (b : Buf), b.isStatic = false →
